@@ -171,10 +171,11 @@ def canon_impl(l):
 
 def canon_model(l):
     """-> (head, prov, hazard class, model predicts a read past the last iMCU row)"""
-    m = re.match(r"(.*?) \| prov(.*?) \| haz (\d+) over=(\d) band=(\d+)$", l)
+    m = re.match(r"(.*?) \| prov(.*?) \| haz (\d+) over=(\d) band=(\d+) gok=(\d)$", l)
     if m:
-        return m.group(1), [int(x) for x in m.group(2).split()], int(m.group(3)), m.group(4) == "1", int(m.group(5))
-    m = re.match(r"(tj .*?) \| haz (\d+) over=(\d) band=(\d+)$", l)
+        return (m.group(1), [int(x) for x in m.group(2).split()], int(m.group(3)), m.group(4) == "1",
+                int(m.group(5)) if m.group(6) == "1" else -1)
+    m = re.match(r"(tj .*?) \| haz (\d+) over=(\d) band=(\d+) gok=(\d)$", l)
     if m:
         return m.group(1), None, int(m.group(2)), False, int(m.group(4))
     return l, None, 0, False, 0
@@ -362,6 +363,9 @@ def run_cases(ctx, cases, exes, drv, flavours):
     disagree = 0
     for i, (line, kind) in enumerate(cases):
         mhead, mprov, hz, over, band = model[i]
+        if band < 0:       # the frame's geometry does not satisfy the hypothesis of the context-controller theorem
+            ctx.broken_tie("ctx-v2-geometry", "derive_config's geometry violates ctx_v2_ok on: " + line[:200])
+            band = 0
         is_tj = line.startswith("T ")
         stream = ("tj" if is_tj else "lib") + ("-haz%d" % hz if hz else "")
         # ---- crashes (any flavour) ----
